@@ -90,8 +90,9 @@ def enc(v, ids, depth=0):
     return ["HOST", type(v).__name__]
 
 
-def encpy(v, depth=0):
-    """Typed snapshot of a Python-side value (what eval/get hand to the embedder)."""
+def encpy(v, depth=0, _path=None):
+    """Typed snapshot of a Python-side value (what eval/get hand to the embedder); a container met again on its own path is
+    recorded as ["cyc"] (results of cyclic script values are cyclic Python structures)."""
     if v is None:
         return ["N"]
     if v is True or v is False:
@@ -105,10 +106,17 @@ def encpy(v, depth=0):
         return ["s", v]
     if depth > 400:
         return ["deep"]
-    if t is list:
-        return ["l", [encpy(x, depth + 1) for x in v]]
-    if t is dict:
-        return ["m", [[k if isinstance(k, str) else ["K", type(k).__name__], encpy(x, depth + 1)] for k, x in v.items()]]
+    if t is list or t is dict:
+        _path = _path if _path is not None else set()
+        if id(v) in _path:
+            return ["cyc"]
+        _path.add(id(v))
+        try:
+            if t is list:
+                return ["l", [encpy(x, depth + 1, _path) for x in v]]
+            return ["m", [[k if isinstance(k, str) else ["K", type(k).__name__], encpy(x, depth + 1, _path)] for k, x in v.items()]]
+        finally:
+            _path.discard(id(v))
     if isinstance(v, mval.JSFunction):
         return ["jsf"]
     if callable(v) and not isinstance(v, type):
